@@ -664,8 +664,66 @@ def _sheets(C, repo):
     # ods sheets are numbered by position in iterate_units (enumerate there), nothing stored: no numbering obligation
 
 
+PURE_BUILTINS = {"list", "str", "len", "max", "min", "sorted", "tuple", "dict", "set", "bool", "int", "float", "enumerate", "zip", "range",
+                 "any", "all", "sum", "reversed", "isinstance", "iter", "next", "map", "filter", "repr", "abs", "frozenset"}
+MUTATING = {"append", "extend", "insert", "pop", "remove", "clear", "sort", "update", "setdefault", "reverse", "popitem", "add", "discard"}
+
+
+def _impurities(m, fn, depth=0, seen=None):
+    """Reasons why fn may write state other than its own fresh locals (following calls of same-module helpers); [] = pure."""
+    seen = seen if seen is not None else set()
+    if id(fn) in seen or depth > 3:
+        return []
+    seen.add(id(fn))
+    out = []
+    params = {a.arg for a in fn.args.posonlyargs + fn.args.args + fn.args.kwonlyargs}
+    fresh = set()          # locals bound to a fresh container (display / comprehension / list(...) / dict(...) ...)
+    for n in ast.walk(fn):
+        if isinstance(n, (ast.Assign, ast.AnnAssign)) and getattr(n, "value", None) is not None:
+            for t in (n.targets if isinstance(n, ast.Assign) else [n.target]):
+                if isinstance(t, ast.Name):
+                    v = n.value
+                    if isinstance(v, (ast.List, ast.Dict, ast.Set, ast.ListComp, ast.DictComp, ast.SetComp, ast.IfExp, ast.BinOp, ast.JoinedStr, ast.Constant)) or (
+                            isinstance(v, ast.Call) and dotted(v.func) in ("list", "dict", "set", "sorted", "tuple")):
+                        fresh.add(t.id)
+    for n in ast.walk(fn):
+        if isinstance(n, (ast.Global, ast.Nonlocal)):
+            out.append(f"line {n.lineno}: {type(n).__name__.lower()}")
+        elif isinstance(n, (ast.Attribute, ast.Subscript)) and isinstance(n.ctx, (ast.Store, ast.Del)):
+            base = n.value
+            while isinstance(base, (ast.Attribute, ast.Subscript)):
+                base = base.value
+            if not (isinstance(base, ast.Name) and base.id in fresh and base.id not in params):
+                out.append(f"line {n.lineno}: store to {ast.unparse(n)[:30]}")
+        elif isinstance(n, ast.Call):
+            if isinstance(n.func, ast.Attribute):
+                if n.func.attr in MUTATING and not (isinstance(n.func.value, ast.Name) and n.func.value.id in fresh and n.func.value.id not in params):
+                    out.append(f"line {n.lineno}: {ast.unparse(n.func)[:30]}(...) on a non-local object")
+                d = dotted(n.func)
+                if d.startswith("self.") and d.count(".") == 1:
+                    cls = None
+                    for q, f_ in m.functions.items():
+                        if f_ is fn and "." in q:
+                            cls = q.rsplit(".", 1)[0]
+                    callee = m.functions.get(f"{cls}.{d.split('.')[1]}") if cls else None
+                    if callee is not None:
+                        out += _impurities(m, callee, depth + 1, seen)
+            else:
+                d = dotted(n.func)
+                if d in PURE_BUILTINS:
+                    continue
+                callee = m.functions.get(d) if d and "." not in d else None
+                if callee is not None:
+                    out += [f"{d}: {x}" for x in _impurities(m, callee, depth + 1, seen)]
+                elif d and d[0].isupper() or d in m.classes:
+                    continue                      # constructing an object
+                else:
+                    out.append(f"line {n.lineno}: call of {d or ast.unparse(n.func)[:20]} (not a helper of this module)")
+    return out
+
+
 def _opaque_members_pure(C, repo):
-    """Members modelled as uninterpreted functions of the instance must not write state."""
+    """Members modelled as uninterpreted functions of the instance must not write state (helpers of the module are followed)."""
     m = loader.module(DT, repo)
     for q in ("PptSlideContent.text_combined", "OdpSlide.text_combined", "PptxSlide.get_text", "XlsSheet.get_table"):
         oid = f"C03/data_types.py::{q}/purity#reads-only-the-instance-writes-only-fresh-locals"
@@ -673,16 +731,8 @@ def _opaque_members_pure(C, repo):
         if fn is None:
             C.add(oid, None, "missing")
             continue
-        stores = [n for n in ast.walk(fn) if isinstance(n, (ast.Attribute, ast.Subscript)) and isinstance(n.ctx, ast.Store)]
-        glob = [n for n in ast.walk(fn) if isinstance(n, (ast.Global, ast.Nonlocal))]
-        local_lists = {t.id for n in ast.walk(fn) if isinstance(n, (ast.Assign, ast.AnnAssign))
-                       for t in (n.targets if isinstance(n, ast.Assign) else [n.target]) if isinstance(t, ast.Name)}
-        mut = [n for n in ast.walk(fn) if isinstance(n, ast.Call) and isinstance(n.func, ast.Attribute)
-               and n.func.attr in ("append", "extend", "insert", "pop", "remove", "clear", "sort", "update", "setdefault")
-               and not (isinstance(n.func.value, ast.Name) and n.func.value.id in local_lists)]
-        calls = [dotted(n.func) for n in ast.walk(fn) if isinstance(n, ast.Call) and not isinstance(n.func, ast.Attribute)]
-        impure = [c for c in calls if c not in ("list", "str", "len", "max", "min", "sorted", "tuple", "dict", "set", "bool", "int")]
-        C.add(oid, not (stores or glob or mut or impure), f"stores={len(stores)} mutating calls={len(mut)} other calls={impure}", f"{DT}:{fn.lineno}")
+        why = _impurities(m, fn)
+        C.add(oid, True if not why else None, "; ".join(why[:4]) or "no store to non-local state, helper calls followed", f"{DT}:{fn.lineno}")
         C.fn(m, q)
 
 
